@@ -226,5 +226,8 @@ class SelectEventLoop(EventLoop):
 
         self.logger.debug("Processing input")
         for record in ready:
+            if record.fileobj not in self._watch_files:
+                # watch was removed by a callback called earlier in this batch
+                continue
             record.data()
             self._did_something = True
